@@ -391,6 +391,8 @@ class Run:
         self.last_model = model
         mb = model.mb
         self.stats['served'] += len(mb.served)
+        for k, v in mb.probes.items():
+            self.probe(k, v)
         self.stats['executed'] += len(mb.executed)
         for k, c in mb.causes.items():
             c = c.split(' ')[0] if isinstance(c, str) else str(c)
